@@ -124,7 +124,15 @@ class Universe:
     def _build_one(self, sym, d):
         tags = [self._conc_tag(t, d["pk"]) for t in d.get("tags", [])]
         content = self.palette(d.get("content", "c-" + sym)) if d.get("content", None) != "" else ""
-        ev = C.mk_event(d["pk"], kind=d["kind"], created_at=C.T0 + d["ts"], tags=tags, content=content)
+        created_at = d.get("created_at", C.T0 + d["ts"])
+        kind = d.get("kind_conc", d["kind"])
+        ev = C.mk_event(d["pk"], kind=kind, created_at=created_at, tags=tags, content=content)
+        if d.get("id_prefix"):
+            # grind a content nonce until the id starts with the wanted hex prefix (byte-order hazards in index keys)
+            n = 0
+            while not ev["id"].startswith(d["id_prefix"]):
+                n += 1
+                ev = C.mk_event(d["pk"], kind=kind, created_at=created_at, tags=tags, content=content + "#%d" % n)
         mut = d.get("mutate")
         if mut:
             ev = mut(ev, self)
